@@ -69,10 +69,11 @@ def sym_scalar(ob, kind, name='c'):
         return s, Term.of(v)
     if kind in ('tensor0', 'tensor1'):
         v = z3.Real(name)
-        t = STensor([] if kind == 'tensor0' else [T.Axis(1)], 'float64', lambda idx: Term.of(v))
+        # the scalar tensor has the dtype of the TT operand (mixed-dtype promotion is not part of the property)
+        t = STensor([] if kind == 'tensor0' else [T.Axis(1)], ob.dt(), lambda idx: Term.of(v))
         t.name = name
         ob.ex.register_arg(t, name)
-        ob.describe(name, {'kind': kind, 'value': v, 'dtype': 'float64'})
+        ob.describe(name, {'kind': kind, 'value': v, 'dtype': ob.dt()})
         return t, Term.of(v)
     raise ValueError(kind)
 
